@@ -277,3 +277,79 @@ func VerifH_C06_ConcurrentExchanges() {
 		verifrt.Assert(!c.violated, "a connection never carries a second query before the previous reply was consumed")
 	}
 }
+
+// vAbandonedThenLateReply: the caller of exchange 1 gives up while the (healthy but slow) server still owes the
+// reply; the reply arrives later on the same connection if that is still open; exchange 2 follows, before or after
+// the late reply (≤ 2 scheduling deviations). Under a harness-controlled clock the connection fake honours the
+// "wake the reader" idiom SetReadDeadline(time.Now()) exactly (the read fails at once with a time-out that
+// errors.Is(…, os.ErrDeadlineExceeded), as on a real socket). One-at-a-time connections do not look at IDs or
+// questions, so the ONLY thing that pairs replies with queries is that a connection with a reply owed is never
+// offered to anyone else: exchange 2 must get the reply to its own query (or fail), never exchange 1's.
+func vAbandonedThenLateReply() {
+	verifrt.Unwind(120)
+	verifrt.SchedBound(2)
+	verifrt.NoTimers()
+	verifrt.CtxNoExpiry = true
+	base := time.Unix(1700000000, 0)
+	verifrt.Redirect("time.Now", func() time.Time { return base })
+	late := make(chan struct{})
+	var conns []*vNetConn
+	t := NewReuseConnTransport(ReuseConnOpts{DialContext: func(ctx context.Context) (net.Conn, error) {
+		c := newVNetConn()
+		c.pastDeadlines = true
+		c.checkClean = true
+		first := len(conns) == 0
+		conns = append(conns, c)
+		go func() {
+			held := first
+			for {
+				var q []byte
+				select {
+				case q = <-c.outbox:
+				case <-c.closedCh:
+					return
+				}
+				if len(q) < 14 {
+					continue
+				}
+				if held {
+					held = false
+					select {
+					case <-late: // the slow answer to the first query of the first connection
+					case <-c.closedCh:
+						return
+					}
+				}
+				c.inbox <- []byte{0, 12, q[2], q[3], 0x80, q[5] & 0xF, 0, 0, 0, 0, 0, 0, 0, 0}
+			}
+		}()
+		return c, nil
+	}})
+	ctx1, cancel1 := verifrt.CtxWithCancel(nil)
+	res1 := make(chan vExRes, 1)
+	go func() { r, err := t.ExchangeContext(ctx1, vQuery12(0x1111, 1)); res1 <- vExRes{r, err} }()
+	verifrt.Quiesce() // query 1 is on the wire, nobody answers yet
+	cancel1()
+	r1 := <-res1
+	verifrt.Assert(r1.m == nil && r1.err != nil, "the abandoned exchange returns its context error")
+	verifrt.Quiesce()
+	verifrt.Reach("abandoned")
+	go func() { close(late) }() // the late reply arrives whenever this goroutine is scheduled
+	id2 := verifrt.U16("id2")
+	r2, err2 := t.ExchangeContext(context.Background(), vQuery12(id2, 2))
+	verifrt.Reach("second-returned")
+	if err2 == nil {
+		verifrt.Reach("second-answered")
+		verifrt.Assert(r2.Header.RCode == 2 && r2.Header.ID == id2, "exchange 2 gets the reply to its own query, never the late reply to the abandoned one")
+	}
+	for _, c := range conns {
+		verifrt.Assert(!c.violated, "a connection never carries a second query before the previous reply was consumed")
+	}
+}
+
+// VerifH_C06_AbandonedThenLateReply: see vAbandonedThenLateReply.
+func VerifH_C06_AbandonedThenLateReply() { vAbandonedThenLateReply() }
+
+// VerifH_C04_AbandonedThenLateReply: the same scenario under the no-mix-up property: on transports that demultiplex by
+// connection, handing a connection with a reply owed to the next query gives that query another query's answer.
+func VerifH_C04_AbandonedThenLateReply() { vAbandonedThenLateReply() }
